@@ -130,7 +130,8 @@ static int g_w_has_byte;
 static struct fh_s { int tag; } FH;
 /* dir stubs */
 static unsigned int g_newblk, g_wdb, g_iblk, g_bmap, g_bas, g_tail;
-static unsigned char g_blk[BS];			/* the directory block as handed to ext2fs_write_dir_block4 */
+static int g_w_is_entry, g_w_is_last;
+static unsigned int g_parent;
 static char *g_bbuf;
 
 #define FAIL_NOW() (IN.fail[(g_ci++) % 12] & 1)
@@ -362,14 +363,15 @@ errcode_t ext2fs_new_block2(ext2_filsys fs, blk64_t goal, ext2fs_block_bitmap ma
 	*ret = IN.newblk;
 	return 0;
 }
+static void check_dir_block(const unsigned char *blk);
 errcode_t ext2fs_write_dir_block4(ext2_filsys fs, blk64_t block, void *buf, int flags, ext2_ino_t ino)
 {
-	EXPECT(block == IN.newblk && ino == IN.ino && flags == 0 && g_newblk == 1);
+	EXPECT(block == IN.newblk && ino == IN.ino && flags == 0 && g_newblk == 1 && (char *)buf == g_bbuf);
 	CHECK(__CPROVER_r_ok(buf, BS), "write_dir_block: a whole block");
+	check_dir_block((const unsigned char *)buf);	/* the statement about the block, at the moment it is written */
 	if (FAIL_NOW())
 		return EXT2_ET_SHORT_WRITE;
 	g_wdb++;
-	memcpy(g_blk, buf, BS);
 	return 0;
 }
 errcode_t ext2fs_iblk_add_blocks(ext2_filsys fs, struct ext2_inode *inode, blk64_t num_blocks)
@@ -521,6 +523,39 @@ void h_expand_file_full(void)
 
 /* ------------------------------------------------------------------ directory */
 #define DE(p, off) ((struct ext2_dir_entry *)((p) + (off)))
+static void check_dir_block(const unsigned char *blk)
+{
+#if defined(VERIF_UNIT_pop_inline_expand_dir)
+	unsigned int area = AREA, end = BS - (IN.csum ? 12u : 0u);
+	const struct ext2_dir_entry *d0 = DE(blk, 0), *d1 = DE(blk, 12);
+	CHECK(d0->inode == IN.ino && d0->rec_len == 12 && (d0->name_len & 0xff) == 1 && d0->name[0] == '.' &&
+	      (d0->name_len >> 8) == (IN.filetype ? EXT2_FT_DIR : 0), "block starts with '.' -> the directory itself");
+	CHECK(d1->inode == g_parent && d1->rec_len == 12 && (d1->name_len & 0xff) == 2 && d1->name[0] == '.' && d1->name[1] == '.' &&
+	      (d1->name_len >> 8) == (IN.filetype ? EXT2_FT_DIR : 0), "then '..' -> the parent kept in i_block[0]");
+	if (g_w_is_entry) {
+		/* the entry that started at inline offset W now starts at block offset W + 20, byte for byte */
+		const struct ext2_dir_entry *src = DE(IN.area, IN.w), *dst = DE(blk, IN.w + 20);
+		unsigned int b = IN.k % 8;
+		CHECK(dst->inode == src->inode && dst->name_len == src->name_len, "entry W: inode, name length and file type kept");
+		CHECK(8 + b >= src->rec_len || blk[IN.w + 20 + 8 + b] == IN.area[IN.w + 8 + b], "entry W: name bytes kept (every byte of the entry behind its 8-byte header)");
+		if (!g_w_is_last)
+			CHECK(dst->rec_len == src->rec_len, "entry W (not the last): rec_len kept, so the chain continues at the next entry");
+		else {
+			CHECK(IN.w + 20 + dst->rec_len == end, "last entry: rec_len extended to the end of the block (before the checksum tail)");
+			REACH("last entry");
+		}
+		REACH("entry compared");
+	}
+	if (IN.csum) {
+		const struct ext2_dir_entry_tail *t = (const struct ext2_dir_entry_tail *)(blk + BS - 12);
+		CHECK(g_tail == 1 && t->det_reserved_zero1 == 0 && t->det_rec_len == 12 && t->det_reserved_name_len == EXT2_DIR_NAME_LEN_CSUM,
+		      "metadata_csum: the last 12 bytes are an initialised checksum tail");
+		REACH("csum tail");
+	} else
+		CHECK(g_tail == 0, "no checksum tail without metadata_csum");
+#endif
+}
+
 void h_expand_dir(void)
 {
 #if defined(VERIF_UNIT_pop_inline_expand_dir)
@@ -530,59 +565,32 @@ void h_expand_dir(void)
 	/* the inline data: i_block = parent (4 bytes) + 56 bytes of entries, then the EA value */
 	memcpy(G_INODE.i_block, IN.area, 60);
 	/* well-formed entry chain from byte 4 to the end of the inline data; W = start of one arbitrary entry of the chain */
-	int w_is_entry = 0, w_is_last = 0;
+	g_w_is_entry = 0; g_w_is_last = 0;
 	for (off = 4, n = 0; n < 8 && off < area; n++) {
 		unsigned int rl = DE(IN.area, off)->rec_len;
 		ASSUME(rl >= 8 && (rl & 3) == 0 && rl <= area - off);
 		if (off == IN.w) {
-			w_is_entry = 1;
-			w_is_last = (off + rl == area);
+			g_w_is_entry = 1;
+			g_w_is_last = (off + rl == area);
 		}
 		off += rl;
 	}
 	ASSUME(off == area);
 	struct ext2_inode before = G_INODE;
-	unsigned int parent = *(unsigned int *)IN.area;
+	g_parent = *(unsigned int *)IN.area;
 
 	errcode_t r = ext2fs_inline_data_expand(&FS, IN.ino);
 
-	CHECK(!g_bad, "every callee is used on this inode / the new block, in order");
+	CHECK(!g_bad, "every callee is used on this inode / the new block / the block buffer, in order");
 	CHECK(g_xopen == g_xclose, "every xattr handle is closed again");
 	CHECK(g_mem_allocs == g_mem_frees, "every buffer is freed");
 	if (r == 0) {
-		unsigned int end = BS - (IN.csum ? 12u : 0u);
-		struct ext2_dir_entry *d0 = DE(g_blk, 0), *d1 = DE(g_blk, 12);
 		CHECK(g_newblk == 1 && g_wdb == 1 && g_iblk == 1 && g_bmap == 1 && g_bas == 1 && g_xremoved == 1,
-		      "success: one block allocated, written, accounted, mapped at logical block 0, marked in use; EA removed");
-		CHECK(d0->inode == IN.ino && d0->rec_len == 12 && (d0->name_len & 0xff) == 1 && d0->name[0] == '.' &&
-		      (d0->name_len >> 8) == (IN.filetype ? EXT2_FT_DIR : 0), "block starts with '.' -> the directory itself");
-		CHECK(d1->inode == parent && d1->rec_len == 12 && (d1->name_len & 0xff) == 2 && d1->name[0] == '.' && d1->name[1] == '.' &&
-		      (d1->name_len >> 8) == (IN.filetype ? EXT2_FT_DIR : 0), "then '..' -> the parent kept in i_block[0]");
-		if (w_is_entry) {
-			/* the entry that started at inline offset W now starts at block offset W + 20, byte for byte */
-			struct ext2_dir_entry *src = DE(IN.area, IN.w), *dst = DE(g_blk, IN.w + 20);
-			unsigned int b = IN.k % 8;
-			CHECK(dst->inode == src->inode && dst->name_len == src->name_len, "entry W: inode, name length and file type kept");
-			CHECK(8 + b >= src->rec_len || g_blk[IN.w + 20 + 8 + b] == IN.area[IN.w + 8 + b], "entry W: name bytes kept (every byte of the entry behind its 8-byte header)");
-			if (!w_is_last)
-				CHECK(dst->rec_len == src->rec_len, "entry W (not the last): rec_len kept, so the chain continues at the next entry");
-			else {
-				CHECK(IN.w + 20 + dst->rec_len == end, "last entry: rec_len extended to the end of the block (before the checksum tail)");
-				REACH("last entry");
-			}
-			REACH("entry compared");
-		}
-		if (IN.csum) {
-			struct ext2_dir_entry_tail *t = (struct ext2_dir_entry_tail *)(g_blk + BS - 12);
-			CHECK(g_tail == 1 && t->det_reserved_zero1 == 0 && t->det_rec_len == 12 && t->det_reserved_name_len == EXT2_DIR_NAME_LEN_CSUM,
-			      "metadata_csum: the last 12 bytes are an initialised checksum tail");
-			REACH("csum tail");
-		} else
-			CHECK(g_tail == 0, "no checksum tail without metadata_csum");
+		      "success: one block allocated, written (content: see check_dir_block), accounted, mapped at logical block 0, marked in use; EA removed");
 		CHECK(!(G_INODE.i_flags & EXT4_INLINE_DATA_FL), "success: EXT4_INLINE_DATA_FL is gone");
 		CHECK(((G_INODE.i_flags & EXT4_EXTENTS_FL) != 0) == (IN.extents != 0), "success: EXT4_EXTENTS_FL iff the file system has extents");
 		CHECK(G_INODE.i_size == BS, "success: i_size = one block");
-		CHECK(G_INODE.i_blocks == before.i_blocks + BS / 512, "success: i_blocks accounts the new block");
+		CHECK(G_INODE.i_blocks == (__u32)(before.i_blocks + BS / 512), "success: i_blocks accounts the new block");
 		CHECK(G_INODE.i_mode == before.i_mode && G_INODE.i_uid == before.i_uid && G_INODE.i_links_count == before.i_links_count &&
 		      G_INODE.i_mtime == before.i_mtime, "success: type, permissions, owner, link count, mtime unchanged");
 		REACH("expanded");
